@@ -39,6 +39,7 @@ ABSTRACTS["AbsDiGraph"] = {
 }
 ABSTRACTS["AbsGraph"] = {
     "number_of_vertices": ([], INT, False),
+    "order": ([], INT, False),
     "number_of_edges": ([], INT, False),
     "vertices": ([], RANGE, False),
     "neighbors": ([INT], TList(INT), True),
@@ -301,6 +302,15 @@ ITEMS = [
     {"file": "cnfgen/families/counting.py", "function": "PerfectMatchingPrinciple", "property": "C01",
      "erased_locals": ["description"],
      "params": {"G": TAbs("AbsGraph"), "formula_class": TEffectClass("Formula")}},
+    {"file": "cnfgen/families/coloring.py", "function": "GraphColoringFormula", "property": "C02",
+     "erased_locals": ["description"],
+     "params": {"G": TAbs("AbsGraph"), "colors": INT, "functional": BOOL, "formula_class": TEffectClass("Formula")}},
+    {"file": "cnfgen/families/coloring.py", "function": "EvenColoringFormula", "property": "C02",
+     "erased_locals": ["description"],
+     "params": {"G": TAbs("AbsGraph"), "formula_class": TEffectClass("Formula")}},
+    {"file": "cnfgen/families/tseitin.py", "function": "TseitinFormula", "property": "C02",
+     "erased_locals": ["description", "parity"],
+     "params": {"G": TAbs("AbsGraph"), "charges": TOpt(TList(BOOL)), "formula_class": TEffectClass("Formula")}},
     {"file": "cnfgen/families/ramsey.py", "function": "PythagoreanTriples", "property": "C03",
      "params": {"N": INT, "formula_class": TEffectClass("Formula")}},
 ]
